@@ -14,7 +14,7 @@ operations must raise.
 """
 import math, numbers, operator, warnings
 from fractions import Fraction
-from common import frac, rstr, rparse
+from common import frac, rstr, rparse, fstr
 from common import close as _close0
 
 ID = "C05"
@@ -30,7 +30,7 @@ RULE = ("random expression trees (depth <= 3 quick / <= 4 thorough) over UnitVal
 ASSUMPTIONS = [
     "IEEE-754 double arithmetic of CPython/numpy is within 1e-9 relative (to the magnitude of the added terms) of exact arithmetic for these short computations",
     "fractional exponents are the doubles nearest to +-1/2, +-1/3, +-2/3; oracle and model read them as those rationals (the code's float test int(dim*e) is exact for them, probed for |dim| <= 60)",
-    "trees whose intermediate doubles leave [1e-280, 1e280], hit an exact zero divisor or come too close to a discontinuity (comparison: 1e-6 relative; floor in %: quotient within 1e-9 relative of an integer, or above 1e8) are skipped and counted",
+    "trees whose intermediate doubles leave [1e-280, 1e280] or hit an exact zero divisor are skipped and counted; a node within float error of a discontinuity (comparison: 1e-6 relative; floor in %: quotient within 1e-12 relative of an integer) makes its tree 'ambiguous': values are then not compared, raise-or-not / kind / stored system / dimension / length still are",
 ]
 TRUSTED = ["Python-side SI oracle (prefix table in this file) duplicates the Lean Spec `Strengths.C06.si*`",
            "real power of a positive number (float ** fractional exponent): parameter `pyPow` of the model, contract `PowContract`"]
@@ -199,7 +199,7 @@ def ev(E, node, path="r"):
     if isinstance(a, Raised):
         return a
     if k == "rbin":
-        # `b.__rop__(a)` called directly (a public method that claims to compute `a op b`); oracle only
+        # `b.__rop__(a)` called directly (a public method that claims to compute `a op b`)
         b = ev(E, node["b"], path + ".b")
         if isinstance(b, Raised):
             return b
@@ -315,7 +315,7 @@ def oracle_bin(E, op, a, b, r, path):
             q = x / y
             fl = math.floor(q)
             dist = min(q - fl, fl + 1 - q)
-            if (q != 0 and dist < Fraction(1, 10 ** 9) * abs(q)) or abs(q) > 10 ** 8:
+            if (q != 0 and dist < Fraction(1, 10 ** 12) * abs(q)) or abs(q) > 10 ** 10:
                 exp.append(None); mags.append(None)
             else:
                 exp.append(x - y * fl); mags.append(abs(x) + abs(y * fl))
@@ -349,16 +349,9 @@ def oracle_bin(E, op, a, b, r, path):
             continue
         if not qclose(pr[0][i], exp[i], mags[i]):
             E.find(key0 + ":value", "%s of %s and %s: SI value %s, exact SI arithmetic gives %s" % (
-                op, ka, kb, fl_s(pr[0][i]), fl_s(exp[i])), path, impl=E.canon(r),
+                op, ka, kb, fstr(pr[0][i]), fstr(exp[i])), path, impl=E.canon(r),
                 expected={"dim": edim, "si": [rstr(v) if v is not None else None for v in exp]})
             return
-
-
-def fl_s(q):
-    try:
-        return "%.12g" % float(q)
-    except OverflowError:
-        return rstr(q)
 
 
 def qclose(v, q, mag=None, rel=1e-9):
@@ -555,7 +548,7 @@ def oracle_cmp(E, op, a, b, r, path, exact_ok):
     elif not isbool:
         E.find(key0 + ":nonbool", "comparison returned a %s" % type(r).__name__, path, impl=E.canon(r), expected=want)
     elif bool(r) != want:
-        E.find(key0 + ":value", "%s is %s, comparing the SI values (%s, %s) gives %s" % (op, bool(r), fl_s(x), fl_s(y), want), path,
+        E.find(key0 + ":value", "%s is %s, comparing the SI values (%s, %s) gives %s" % (op, bool(r), fstr(x), fstr(y), want), path,
                impl=E.canon(r), expected=want)
 
 
@@ -608,9 +601,11 @@ def rand_mag(rng):
     return Fraction(rng.randint(1, 999999)) * Fraction(10) ** rng.randint(-15, 9)
 
 
-def rand_float(rng, positive=False, target=None):
+def rand_float(rng, positive=False, target=None, exact=False):
     if target is not None and target != 0:
-        q = abs(Fraction(target)) * Fraction(rng.randint(10 ** 5, 10 ** 8), 999983)   # never a round multiple
+        q = abs(Fraction(target))
+        if not exact:
+            q *= Fraction(rng.randint(10 ** 5, 10 ** 8), 999983)   # never a round multiple
         try:
             v = float(q)
         except OverflowError:
@@ -622,11 +617,11 @@ def rand_float(rng, positive=False, target=None):
     return v if (positive or rng.random() < 0.5) else -v
 
 
-def num_leaf(rng, target=None, positive=False):
+def num_leaf(rng, target=None, positive=False, exact=False):
     r = rng.random()
     if target is not None:
-        v = rand_float(rng, positive, target)
-        if r < 0.3 and abs(v) >= 1 and abs(v) < 1e15:
+        v = rand_float(rng, positive, target, exact)
+        if not exact and r < 0.3 and abs(v) >= 1 and abs(v) < 1e15:
             return {"k": "leaf", "t": "num", "v": rstr(int(v)), "py": "int"}
         return {"k": "leaf", "t": "num", "v": rstr(v), "py": "npf" if r > 0.9 else "float"}
     if r < 0.4:
@@ -638,16 +633,17 @@ def num_leaf(rng, target=None, positive=False):
     return {"k": "leaf", "t": "num", "v": rstr(v), "py": "npf" if r > 0.9 else "float"}
 
 
-def qty_leaf(rng, kind, dim, n, si_target=None, positive=False, sys=None):
+def qty_leaf(rng, kind, dim, n, si_target=None, positive=False, sys=None, exact=False):
     sys = sys or rand_sys(rng)
     tgt = None
     if si_target is not None:
         tgt = Fraction(si_target) / si_factor(sys, dim)
     if kind == "val":
-        return {"k": "leaf", "t": "val", "x": {"v": rstr(rand_float(rng, positive, tgt)), "u": unitsj(sys, dim)}}
+        return {"k": "leaf", "t": "val", "x": {"v": rstr(rand_float(rng, positive, tgt, exact)), "u": unitsj(sys, dim)}}
     if tgt is None:
         tgt = rand_mag(rng)   # the elements of one array share their order of magnitude (two decades)
-    return {"k": "leaf", "t": "arr", "xs": {"vs": [rstr(rand_float(rng, positive, tgt)) for _ in range(n)], "u": unitsj(sys, dim)}}
+    return {"k": "leaf", "t": "arr", "xs": {"vs": [rstr(rand_float(rng, positive, tgt, exact and i == 0)) for i in range(n)],
+                                            "u": unitsj(sys, dim)}}
 
 
 class Gen:
@@ -693,8 +689,9 @@ class Gen:
     def leaf(self, kind, dim, hint=None, positive=False):
         rng = self.rng
         if kind == "num":
-            return num_leaf(rng, hint[1] if hint else None, positive)
-        return qty_leaf(rng, kind, dim, self.arrlen(), hint[0] if hint else None, positive)
+            return num_leaf(rng, hint[1] if hint else None, positive, exact=bool(hint and len(hint) > 3 and hint[3]))
+        return qty_leaf(rng, kind, dim, self.arrlen(), hint[0] if hint else None, positive,
+                        exact=bool(hint and len(hint) > 3 and hint[3]))
 
     def tree(self, depth, dim=None, kind=None, hint=None, positive=False):
         rng = self.rng
@@ -713,7 +710,7 @@ class Gen:
         if op in ("neg", "abs"):
             return {"k": op, "a": self.tree(depth - 1, dim, kind, hint, positive and op == "neg" and False)}
         if op == "inv":
-            h = (1 / hint[0], 1 / hint[1], None) if hint else None
+            h = (1 / hint[0], 1 / hint[1], None, len(hint) > 3 and hint[3]) if hint else None
             return {"k": "inv", "a": self.tree(depth - 1, tuple(-d for d in dim), kind, h, positive)}
         if op == "pow":
             return self.pow(depth, dim, kind)
@@ -730,7 +727,7 @@ class Gen:
                 dr = other_dim(rng, dim)
             first_right = (kl == "num" and kr != "num")
             # `%` : the quotient must stay moderate, so the second operand drawn is (nearly always) a leaf of comparable size
-            p_hint = 0.97 if op == "mod" else 0.75
+            p_hint = 1.0 if op == "mod" else 0.75
             d2nd = 0 if (op == "mod" and rng.random() < 0.9) else depth - 1
             if first_right:
                 b = self.tree(depth - 1, dr, kr, hint)
@@ -755,17 +752,28 @@ class Gen:
             dr = tuple(-x for x in dim)
         elif kl == "num":
             dr = dim
-        return {"k": "bin", "op": op, "a": self.tree(depth - 1, dl, kl), "b": self.tree(depth - 1, dr, kr)}
+        a = self.tree(depth - 1, dl, kl, None)
+        hb = None
+        if hint is not None:
+            # a target magnitude for the product / quotient: the second factor gets the matching size
+            ha = self.hint_of(a)
+            if ha is not None:
+                hb = (hint[0] / ha[0], hint[1] / ha[1], None) if op == "mul" else (ha[0] / hint[0], ha[1] / hint[1], None)
+        return {"k": "bin", "op": op, "a": a, "b": self.tree(depth - 1, dr, kr, hb)}
 
     def scaled(self, h, op, left):
-        """hint for the other operand of + - % : comparable magnitude; for % keep |a/b| <= 1e5"""
+        """hint for the other operand of + - % : comparable magnitude.  For % the quotient a/b is put, by construction,
+        at k + u with u in [0.15, 0.85] (away from the jump of floor), |k| up to ~1e6"""
         if h is None:
             return None
         rng = self.rng
         if op == "mod":
-            k = rng.randint(-5, 2) if not left else rng.randint(-2, 5)
-        else:
-            k = rng.choice([0, 0, 0, 1, -1, 2, -2, 4, -4])
+            k = rng.choice([0, 0, 0, 1, 1, 2, 3, 7, 19, 150, 12345, 10 ** rng.randint(3, 6) + rng.randint(0, 9)])
+            q0 = k + Fraction(rng.randint(150000, 850000), 1000003)
+            if left:     # drawing a for a given b: a = b * q0
+                return (h[0] * q0, h[1] * q0, h[2], True)
+            return (h[0] / q0, h[1] / q0, h[2], True)
+        k = rng.choice([0, 0, 0, 1, -1, 2, -2, 4, -4])
         s = Fraction(10) ** k
         return (h[0] * s, h[1] * s, h[2])
 
@@ -888,7 +896,7 @@ def table_cases(rng, E):
                                     c["exact_ok"] = True
                                 out.append(c)
     # the reflected methods called directly with a quantity argument (Python's dispatch never does that: the left
-    # quantity's forward method runs first), oracle only
+    # quantity's forward method runs first); the model applies `rdunder` literally
     for op in BINOPS:
         for kl in ("val", "arr"):
             for kr in ("val", "arr"):
@@ -934,16 +942,34 @@ def has_quantity(node):
 def compare_model(ctx, case, got, r):
     """returns None when agreeing, 'skip:<why>' when the float policy says so, else a description"""
     if r is None:
-        return "skip:no-model" if case["e"]["k"] != "rbin" else "skip:oracle-only"
+        return "skip:no-model"
     if r.get("zerodiv"):
         return "skip:zero-divisor"
     lo, hi = rparse(r["lo"]), rparse(r["hi"])
     if (lo != 0 and lo < LO) or hi > HI:
         return "skip:range"
-    if rparse(r["margin"]) < Fraction(1, 10 ** 6):
-        return "skip:ambiguous"
+    ambiguous = rparse(r["margin"]) < Fraction(1, 10 ** 6)
     if "cmp_margin" in r and rparse(r["cmp_margin"]) < Fraction(1, 10 ** 6) and not (r.get("cmp_exact") and case.get("exact_ok")):
-        return "skip:ambiguous"
+        ambiguous = True
+    if ambiguous:
+        # some node sits within float error of a discontinuity (floor of a % quotient, a comparison, a divisor that is zero up
+        # to cancellation): either side is acceptable there, so values / the boolean are not compared — everything else is
+        if "error" in r and "error" in got:
+            return "partial:ambiguous"      # both raise
+        if "error" in r or "error" in got:
+            return "skip:ambiguous"         # raise-or-not itself may hinge on the discontinuity (zero up to cancellation)
+        mo = r["ok"]
+        if mo["t"] != got["t"]:
+            return "kind"
+        if mo["t"] in ("val", "arr"):
+            x = mo["x"] if mo["t"] == "val" else mo["xs"]
+            if [x["u"]["sys"]["space"], x["u"]["sys"]["time"], x["u"]["sys"]["quantity"]] != list(got["sys"]):
+                return "stored-system"
+            if list(x["u"]["dim"]) != list(got["dim"]):
+                return "dim"
+            if len([x["v"]] if mo["t"] == "val" else x["vs"]) != len(got["vs"]):
+                return "length"
+        return "partial:ambiguous"
     if got.get("t") == "num" and isinstance(got.get("v"), float) and got["v"] != got["v"] and r.get("error") == "typeError":
         return "skip:complex"   # numpy scalar: negative ** fractional is nan instead of a complex number
     if got.get("t") == "complex":
@@ -993,13 +1019,10 @@ def process(ctx, E, cases, label):
         for s in E.experr:
             ctx.count("expected_error_" + s)
         ctx.count("oracle_nodes", len(E.nodes))
-    res = [None] * len(cases)
-    idx = [i for i, c in enumerate(cases) if c["e"]["k"] != "rbin"]
+    res = []
     B = 1500
-    for i in range(0, len(idx), B):
-        part = idx[i:i + B]
-        for j, r in zip(part, ctx.model.run([model_op(cases[j]) for j in part])):
-            res[j] = r
+    for i in range(0, len(cases), B):
+        res += ctx.model.run([model_op(c) for c in cases[i:i + B]])
     for case, got, fs, sk, r in zip(cases, gots, finds, skips, res):
         nontriv = has_quantity(case["e"]) or ("b" in case and has_quantity(case["b"]))
         ctx.case(rstr(0) + repr(case), nontrivial=nontriv, sample={"op": "expr", "case": case, "impl": got})
@@ -1014,7 +1037,7 @@ def process(ctx, E, cases, label):
         why = compare_model(ctx, case, got, r)
         if why is None:
             ctx.count("model_agree")
-        elif why.startswith("skip:"):
+        elif why.startswith("skip:") or why.startswith("partial:"):
             ctx.count("model_" + why.replace(":", "_"))
         else:
             ctx.disagree("expr", {"case": case}, got, r, note=why)
@@ -1025,13 +1048,15 @@ def run(ctx):
     rng = ctx.rng
     ctx.notes.append("array == / != : UnitArray defines no comparison; Python falls back to object identity. Not claimed by the "
                      "property check (only: does not raise, returns a bool).")
-    ctx.notes.append("cmp_si_partial is proved for scalar pairings; for a UnitArray operand of an ordering operator the model follows the "
-                     "regenerated source: if the last branch of UnitValue.__gt__/__ge__/__lt__/__le__ returns its TypeError instance (finding "
-                     "cmp-array-returns-exception-object, fixed in the repository by 8d48d0b) the oracle reports it, if it raises nothing is reported.")
-    ctx.notes.append("eval_homomorphism takes the scalar ** case as hypothesis PowHom (reduced to UnitValue ** number by powHom_of_scalar; "
-                     "dimension rule proved: pow_defined_iff); every other operator, pairing and the tree induction are proved outright.")
+    ctx.notes.append("cmp_si is proved for all pairings on the tree under test (ordering_else_raises is read from the regenerated source: "
+                     "the last branch of UnitValue.__gt__/__ge__/__lt__/__le__ raises since 8d48d0b; on a tree where it returns the "
+                     "TypeError instance that theorem breaks and the oracle reports cmp-array-returns-exception-object).")
+    ctx.notes.append("eval_homomorphism: hypothesis-free for trees with integer-literal exponents (eval_homomorphism_int); for non-integer "
+                     "exponents it assumes PowContract of the trusted float power (root: returns the exact positive rational root when one "
+                     "exists; scale: (x*y^q)^e = x^e*y^p), proved satisfiable (powContract_satisfiable). TRUSTED: that CPython's float ** e "
+                     "rounds the real power function, which has both properties; the check compares ** values to 1e-9 on every case.")
     ctx.notes.append("the reflected methods are also called directly with a quantity argument (b.__rsub__(a) etc., never done by Python's "
-                     "dispatch): oracle only, no model correspondence.")
+                     "dispatch): model (rdunder applied literally) and oracle.")
     ctx.notes.append("UnitArray ** n raises NotImplementedError always (documented); the statement's ** is on scalar quantities.")
     # 1. exhaustive table
     process(ctx, E, table_cases(rng, E), "table_cases")
